@@ -81,7 +81,31 @@ func runSolver(ctx context.Context, s solverSpec, file string, opts solveOpts) s
 
 // solveObl races the solvers on one obligation.
 func solveObl(o *Obl, idx int, opts solveOpts) {
-	script := o.script(true)
+	// first attempt on the relevant slice of the assumptions (sound for unsat); a sat / unknown
+	// answer on the slice is re-examined on the full query
+	if !o.ExpectSat && !o.noSlice && len(o.ctx.asserts) > 400 {
+		for _, hops := range []int{3, 6, 0} {
+			sl := *o
+			sl.noSlice = true
+			sl.sliced = true
+			sl.hops = hops
+			so := opts
+			if hops > 0 && so.timeoutS > 10 {
+				so.timeoutS = 10
+			}
+			solveObl(&sl, idx, so)
+			if sl.Result == "unsat" {
+				tag := "+slice"
+				if hops > 0 {
+					tag = fmt.Sprintf("+slice%d", hops)
+				}
+				o.Result, o.Solver, o.TimeS, o.RawOut, o.File, o.Size, o.Agree = sl.Result, sl.Solver+tag, sl.TimeS, sl.RawOut, sl.File, sl.Size, sl.Agree
+				return
+			}
+		}
+		o.noSlice = true
+	}
+	script := o.scriptOpt(true, o.sliced)
 	file := filepath.Join(opts.workDir, fmt.Sprintf("q%05d.smt2", idx))
 	if err := os.WriteFile(file, []byte(script), 0o644); err != nil {
 		o.Result = "error"
